@@ -1110,8 +1110,8 @@ class StateEngine(object):
 
                 # If has_terminated acknowledge the event and don't add the
                 # id to the event_ids list
+                self.event_dispatcher.acknowledge(id)
                 if state_type != "Parallel" and state_type != "Map":
-                    self.event_dispatcher.acknowledge(id)
                     event_ids[index] = None
 
                 self.check_pending_results(execution_arn)
